@@ -15,11 +15,16 @@ int main(int argc, char** argv)
         TriggerVariable* V = x.make<TriggerVariable>("tv", x.param("active", 0) != 0);
         static const std::vector<const char*> names{"activate", "trigger", "wait", "wait_for", "waitActivation",
                                                     "wait_forActivation", "reset", "isActive", "isTriggered"};
+        // data=1 (C07): the (single) triggering thread writes a plain datum before trigger(); whoever learns that the variable was
+        // triggered (wait / wait_for returned true, isTriggered() returned true) reads it.  For programs with one trigger()
+        // and no reset / activate.
+        bool data = x.param("data", 0) != 0;
         for (auto& menus : vrt::parse_prog(x.rt.cfg.prog)) {
-            x.worker([V, menus] {
+            x.worker([V, menus, data] {
                 const std::chrono::milliseconds d(10);
                 for (auto& menu : menus) {
                     int op = vrt::pick_and_call(menu, names);
+                    if (data && op == 1) vrt::step_ev("pw", "data", 1, 1);
                     long r = 0;
                     switch (op) {
                         case 0: r = V->activate(); break;
@@ -32,6 +37,7 @@ int main(int argc, char** argv)
                         case 7: r = V->isActive(); break;
                         default: r = V->isTriggered(); break;
                     }
+                    if (data && (op == 2 || op == 3 || op == 8) && r != 0) vrt::step_ev("pr", "data", 1, 1);
                     vrt::ret_ev(names[(size_t)op], r);
                 }
             });
